@@ -33,10 +33,16 @@ pub fn build_case(docs: Option<&[Vec<Node>]>, bytes: &[Vec<u8>], cfg: &RCfg, opt
         "[{}]",
         renders
             .iter()
-            .map(|(o, r)| format!("({}, {}%uint63)", o.coq(it), match r {
-                Ok(s) => hash63(s),
-                Err(_) => 0,
-            }))
+            .map(|(o, r)| {
+                let oc = o.coq(it);
+                match r {
+                    Ok(s) => format!("({}, {}%uint63, {})", oc, hash63(s), match crate::outp::parse_output(s) {
+                        Ok(ps) => format!("Some {}", crate::outp::coq_pstructs(&ps, it)),
+                        Err(_) => "None".to_string(),
+                    }),
+                    Err(_) => format!("({}, 0%uint63, None)", oc),
+                }
+            })
             .collect::<Vec<_>>()
             .join("; ")
     );
@@ -73,4 +79,4 @@ pub fn serialise(docs: &[Vec<Node>], rng: &mut Rng) -> Vec<Vec<u8>> {
         .collect()
 }
 
-pub const DOC_IMPORTS: &str = "From XSG.Model Require Import Strings Necessity Element Parser Dom Spec Render.\nFrom XSG.Corr Require Import Common CoreCorr.\nFrom Coq Require Import String Uint63.";
+pub const DOC_IMPORTS: &str = "From XSG.Model Require Import Strings Necessity Element Parser Dom Spec Render.\nFrom XSG.Corr Require Import Common Oracles CoreCorr.\nFrom Coq Require Import String Uint63.";
